@@ -120,7 +120,7 @@ fn do_step(t: &FnTable, c: &mut ThreadCtx, s: Step) -> Result<String, String> {
                         (t.add_to_question)(&mut *c.pp, &mut err, txt.as_ptr())
                     }
                     2 | 4 => {
-                        let mut raw = [0u8; 256];
+                        let mut raw = [0u8; DNS_MAX_HOSTNAME_LEN + 1];
                         let mut raw_len: libc::size_t = 0;
                         let long = [b'x'; 70];
                         let name: &[u8] = if k == 2 { b"a..b" } else { &long };
@@ -210,7 +210,7 @@ fn do_step(t: &FnTable, c: &mut ThreadCtx, s: Step) -> Result<String, String> {
                         (t.rename_with_raw_names)(&mut *c.pp, &mut err, tgt.as_ptr(), tgt.len(), src.as_ptr(), src.len(), true)
                     }
                     2 => {
-                        let mut raw = [0u8; 256];
+                        let mut raw = [0u8; DNS_MAX_HOSTNAME_LEN + 1];
                         let mut raw_len: libc::size_t = 0;
                         let name = b"fine.example";
                         (t.raw_name_from_str)(&mut raw, &mut raw_len, &mut err, name.as_ptr() as *const _, name.len())
